@@ -171,6 +171,11 @@ inductive DRes where
 /-- number of edges whose size satisfies `p` (`len(H.edges.filterby("order", …))`) -/
 def countSize (v : View) (p : Nat → Bool) : Nat := (v.eids.filter (fun e => p (size v e))).length
 
+/-- `unique_edge_sizes(H)` = `sorted(set(H.edges.size.aslist()))`: the sizes that occur, in increasing order (in a
+    well-formed network a size is at most the number of nodes: `size_le_nodes`) -/
+def uniqueEdgeSizes (v : View) : List Nat :=
+  (List.range (v.nodes.length + 1)).filter (fun s => decide (0 < countSize v (· == s)))
+
 def ratio (numer : Int) (denom : Int) : DRes := if denom = 0 then .val 0 else .val ((numer : Rat) / (denom : Rat))
 
 /-- `xgi.density(H, order, max_order, ignore_singletons)` -/
